@@ -13,6 +13,7 @@ import Httoop.Ops.Inet
 import Httoop.Ops.Parser
 import Httoop.Ops.Digest
 import Httoop.Ops.Codecs
+import Httoop.Ops.Compose
 /-
   Line protocol driver: one operation per input line, one canonical line out.
   `op arg …` — octet-string arguments are lower-case hex (`-` = empty), numbers decimal.
@@ -32,7 +33,7 @@ def opsPercent (op : String) (args : List String) : Option String :=
   | _, _ => none
 
 def runOp (op : String) (args : List String) : String :=
-  match opsPercent op args <|> Ops.opsUri op args <|> Ops.opsAuth op args <|> Ops.opsStartLine op args <|> Ops.opsElement op args <|> Ops.opsRange op args <|> Ops.opsDate op args <|> Ops.opsHeaders op args <|> Ops.opsInet op args <|> Ops.opsParser op args <|> Ops.opsDigest op args <|> Ops.opsCodecs op args with
+  match opsPercent op args <|> Ops.opsUri op args <|> Ops.opsAuth op args <|> Ops.opsStartLine op args <|> Ops.opsElement op args <|> Ops.opsRange op args <|> Ops.opsDate op args <|> Ops.opsHeaders op args <|> Ops.opsInet op args <|> Ops.opsParser op args <|> Ops.opsDigest op args <|> Ops.opsCodecs op args <|> Ops.opsCompose op args with
   | some r => r
   | none => "bad-op"
 
